@@ -376,6 +376,15 @@ func (p *Program) checkTypeInvImmutable() error {
 
 // namedType finds a named type by "pkgname.Type".
 func (p *Program) namedType(key string) types.Type {
+	if strings.HasPrefix(key, "[]") {
+		if key == "[]uint8" || key == "[]byte" {
+			return types.NewSlice(types.Typ[types.Uint8])
+		}
+		if el := p.namedType(key[2:]); el != nil {
+			return types.NewSlice(el)
+		}
+		return nil
+	}
 	i := strings.Index(key, ".")
 	if i < 0 {
 		return nil
